@@ -251,26 +251,23 @@ class Parser:
         raise PestGrammarSyntaxError(f"unexpected operator {kind}", token=token)
 
     def parse_postfix_expression(self, expr: Expression) -> Expression:
-        token = self.current()
-        kind = token.kind
+        while True:
+            kind = self.current().kind
 
-        if kind == TokenKind.OPTION_OP:
-            self.pos += 1
-            return Optional(expr)
-
-        if kind == TokenKind.REPEAT_OP:
-            self.pos += 1
-            return Repeat(expr)
-
-        if kind == TokenKind.REPEAT_ONCE_OP:
-            self.pos += 1
-            return RepeatOnce(expr)
-
-        if kind == TokenKind.LBRACE:
-            self.pos += 1
-            return self.parse_repeat_expression(expr)
-
-        return expr
+            if kind == TokenKind.OPTION_OP:
+                self.pos += 1
+                expr = Optional(expr)
+            elif kind == TokenKind.REPEAT_OP:
+                self.pos += 1
+                expr = Repeat(expr)
+            elif kind == TokenKind.REPEAT_ONCE_OP:
+                self.pos += 1
+                expr = RepeatOnce(expr)
+            elif kind == TokenKind.LBRACE:
+                self.pos += 1
+                expr = self.parse_repeat_expression(expr)
+            else:
+                return expr
 
     def parse_repeat_expression(self, expr: Expression) -> Expression:
         token = self.next()
